@@ -90,7 +90,9 @@ LastArg(t) == prog.drv[t][stack[t][1].pos - 1].a
 \* the verdict of a call depends only on the call: checked where the driver of a task gets the outcome
 VerdictIndependent ==
   (emit.e = "ret" /\ emit.ph = "drv" /\ Clean /\ FN(emit.id).cls = 0 /\ FN(emit.id).chain = <<"chk">> /\ ScriptFree(emit.id)) =>
-     LET ref == RefOutcomeFn(emit.id, LastArg(emit.t)) IN
+     LET op  == prog.drv[emit.t][stack[emit.t][1].pos - 1]
+         ref == IF IsBad(op) /\ FN(emit.id).post # <<>> THEN Raise("TypeError", BadKwId)
+                ELSE RefOutcomeFn(emit.id, LastArg(emit.t)) IN
        /\ emit.v = ref.v
        /\ emit.cls = IF ref.k = "ret" THEN "ret" ELSE ref.cls
 =============================================================================
